@@ -23,28 +23,15 @@ struct terminal_stepper : stepper
 {
     std::vector<std::string> parts;
     std::size_t i = 1;
-    test_channel ch;
-    std::unique_ptr<terminal> t;
-    std::string res;
+    std::unique_ptr<terminal_script> ts;
     explicit terminal_stepper(std::string const &rest) : parts(split(rest, ';'))
     {
         reader head(parts[0]);
-        t = std::make_unique<terminal>(ch, read_behaviour(head.num()));
+        ts = std::make_unique<terminal_script>(head.num());
     }
     bool done() const override { return i >= parts.size(); }
-    void step() override
-    {
-        reader r(parts[i++]);
-        std::string op = r.word();
-        if (op.empty()) return;
-        ch.out.clear();
-        if (!apply_terminal_op(op, r, *t)) { res += "?op "; return; }
-        std::string st;
-        *t << peek_state{&st};
-        if (!res.empty()) res += " ; ";
-        res += hex(ch.out) + " / " + st;
-    }
-    std::string result() override { return res.empty() ? "-" : res; }
+    void step() override { ts->op(parts[i++]); }
+    std::string result() override { return ts->result(); }
 };
 
 struct screen_stepper : stepper
@@ -144,6 +131,7 @@ struct single_stepper : stepper
         std::string rest = line.size() > 1 ? line.substr(1) : std::string();
         reader r(rest);
         switch (kind) {
+            case 'M': ans = run_multi(rest); break;
             case 'D': ans = run_lookup(r); break;
             case 'N': ans = run_encode_cs(r); break;
             case 'H': ans = run_high(r); break;
